@@ -4,6 +4,7 @@ boundaries of the fragment `C03_preserve_partial` covers, and the recorded latit
 -/
 import ChibiVerif.Model.Stmt
 import ChibiVerif.Lemmas.StmtMachine
+import ChibiVerif.Spec.ControlSpecG
 
 namespace ChibiVerif.Findings.C03
 open ChibiVerif.Ctl ChibiVerif.Spec.Ctl
@@ -43,6 +44,27 @@ theorem C03_duff_model_runs :
     (match parseFn 0 duff with
      | .ok (st, _) => (runM (fun i => [1, 1, 0].getD i 0) (genFn st 1) 60 (MState.init ⟨0, []⟩)).σ.tr
      | .error _ => []) = [.inp 1, .m 11, .c 2, .m 10, .m 11, .c 2] := by decide
+
+/-- … and the small-step abstract machine `execG` (Spec/ControlSpecG.lean; the machine of
+    `C03_preserve_goto_partial`) gives Duff's device exactly that meaning: the constraints hold and the
+    trace is the one the model's code produces on the model's machine. -/
+theorem C03_duff_execG :
+    validG duff = true ∧
+    execG (fun i => [1, 1, 0].getD i 0) 60 duff ⟨0, []⟩ =
+      .done .normal ⟨3, [.inp 1, .m 11, .c 2, .m 10, .m 11, .c 2]⟩ := by decide
+
+/-- boundary of `C03_preserve_goto_partial` (hypothesis `validG`): programs the parser accepts although
+    they violate a constraint of the language have no meaning in the abstract machine — two `case`s
+    selecting one value (chibicc takes the one later in the source, gcc rejects the program), and a
+    label defined twice (chibicc resolves `goto` to the later definition, gcc rejects). -/
+theorem C03_constraint_violations_unsupported :
+    (parseFn 0 (.switch_ false false 1 (.block (.seq (.case_ 1 5 (.marker 1)) (.seq (.case_ 3 3 (.marker 2)) .skip))))).toBool = true ∧
+    validG (.switch_ false false 1 (.block (.seq (.case_ 1 5 (.marker 1)) (.seq (.case_ 3 3 (.marker 2)) .skip)))) = false ∧
+    execG (fun _ => 3) 20 (.switch_ false false 1 (.block (.seq (.case_ 1 5 (.marker 1)) (.seq (.case_ 3 3 (.marker 2)) .skip)))) ⟨0, []⟩
+      = .unsupported ∧
+    (parseFn 0 (.block (.seq (.label 1 (.marker 1)) (.seq (.label 1 (.marker 2)) (.seq (.goto_ 1) .skip))))).toBool = true ∧
+    execG (fun _ => 0) 20 (.block (.seq (.label 1 (.marker 1)) (.seq (.label 1 (.marker 2)) (.seq (.goto_ 1) .skip)))) ⟨0, []⟩
+      = .unsupported := by decide
 
 /-- recorded latitude (not a finding; gcc only warns "empty range specified"): a range that is
     non-empty as `long` but empty after conversion to the controlling type — `case -1 ... 5` of
